@@ -41,6 +41,10 @@ ASequence(calls) == /\ out.op = "init" /\ c.kind = "sequence"
               facts |-> [i \in 1..Len(calls) |-> [A |-> calls[i][2], det |-> Det(calls[i][2]), inv |-> Inverse(calls[i][2]),
                                                   x |-> Solve(calls[i][2], RHS1(2))]]]
    /\ UNCHANGED c
+\* matrix times a flat vector (wide, tall and square matrices)
+MV(M, v) == [i \in 1..Len(M) |-> SumInts([k \in 1..Len(v) |-> M[i][k] * v[k]])]
+MVCases == << <<<<<<1, 2, 3>>, <<4, 5, 6>>>>, <<1, -2, 3>>>>, <<<<<<1, 2>>, <<3, 4>>, <<5, -6>>>>, <<2, -1>>>>, <<<<<<2, 0, 1>>, <<-1, 3, 2>>, <<4, 1, -2>>>>, <<1, 2, -3>>>>,
+             <<<<<<1, 2, 3, 4>>>>, <<1, 1, -1, 2>>>> >>
 HV == <<<<1, 2, 3>>, <<-2, 0, 5>>, <<3, 4>>, <<-1, 2>>, <<0, 0, 2>>, <<4, -3, 0>>, <<2, 5>>>>
 AHelpers == /\ out.op = "init" /\ c.kind = "helpers"
    /\ out' = [op |-> "helpers",
@@ -49,6 +53,7 @@ AHelpers == /\ out.op = "init" /\ c.kind = "helpers"
               matmul |-> MatMulI(<<<<1, 2, 3>>, <<4, 5, 6>>>>, <<<<1, 0>>, <<2, -1>>, <<0, 3>>>>),
               cross |-> VCross(VInts(<<1, 2, 3>>), VInts(<<-2, 0, 5>>)), dot |-> VDot(VInts(<<1, 2, 3>>), VInts(<<-2, 0, 5>>)),
               norm2 |-> VNorm2(VInts(<<3, 4, 12>>)),
+              matvec |-> [i \in 1..Len(MVCases) |-> [M |-> MVCases[i][1], v |-> MVCases[i][2], res |-> MV(MVCases[i][1], MVCases[i][2])]],
               \* every ordered pair of a small family of planar and spatial vectors (a planar vector is (x, y, 0))
               pairs |-> [i \in 1..(Len(HV) * Len(HV)) |->
                           LET a == HV[((i - 1) \div Len(HV)) + 1]  b == HV[((i - 1) % Len(HV)) + 1]
